@@ -34,6 +34,9 @@ def cells(tier):
         for variant in ("lattice", "float", "mixed"):
             out.append({"name": "%s-%s" % (variant, mode), "variant": variant,
                         "mode": mode, "n": N[tier], "steps": STEPS[tier]})
+    if tier == "thorough":
+        from ..common import fuzz_cells
+        out += fuzz_cells("aabbtree", 4, 60000)
     return out
 
 
